@@ -1671,6 +1671,23 @@ impl Sessions {
         Ok((value, to_persist))
     }
 
+    /// Undo the reservation of `value` after the boundary returned together
+    /// with it could not be stored.
+    ///
+    /// That reservation moved the in-memory boundary an epoch ahead, but
+    /// nothing durable covers that epoch. Left alone, every later reservation
+    /// of the epoch would hand out its value without asking for a write, and a
+    /// power loss would resume at the old stored boundary and hand the same
+    /// values out again. So the counter goes back to `value` with nothing
+    /// covered: the next reservation moves the boundary and demands the write
+    /// again. `value` itself was never sent; it is handed out again then.
+    ///
+    /// Only valid when no other reservation happened in between, i.e. in the
+    /// critical section of the reservation itself.
+    pub(crate) fn unreserve_global_group_data_ctr(&mut self, value: u32) {
+        self.set_global_group_data_ctr(value);
+    }
+
     /// Get or create a TX group session for sending group data messages to
     /// `(fab_idx, group_id)`.
     ///
